@@ -457,7 +457,8 @@ class FunctionDefinition:
 
         global_dict = fn.__globals__
 
-        signature = inspect.signature(fn)
+        # the defaults of fn itself, not of a function it wraps (functools.wraps)
+        signature = inspect.signature(fn, follow_wrapped=False)
 
         captured_defaults = {
             name: value.default
